@@ -89,7 +89,7 @@ func (c *Chain) Project(ctx sdk.Context) map[string]any {
 		assets := map[string]any{}
 		for _, pa := range p.PoolAssets {
 			assets[pa.Token.Denom] = map[string]any{
-				"amt": is(pa.Token.Amount), "weight": is(pa.Weight), "ext": ds(pa.ExternalLiquidityRatio)}
+				"amt": is(pa.Token.Amount), "weight": is(pa.Weight), "weightI": smallWeight(pa.Weight), "ext": ds(pa.ExternalLiquidityRatio)}
 		}
 		pools[id] = map[string]any{
 			"addr": "pool:" + id, "treasury": "treasury:" + id, "revenue": "revenue:" + id,
@@ -190,12 +190,23 @@ func (c *Chain) Project(ctx sdk.Context) map[string]any {
 			"leverageMax": ds(p.LeverageMax), "maxRatio": ds(p.MaxLeveragelpRatio)}
 	}
 	lpos := map[string]any{}
+	pctx, _ := ctx.CacheContext() // probes run on a throw-away cache context (the real health functions accrue interest)
+	for pid, lpv := range lpools {
+		id, _ := strconv.ParseUint(pid, 10, 64)
+		price := "-1"
+		if ap, ok := a.AmmKeeper.GetPool(pctx, id); ok {
+			if pr, err := probeLpPrice(c, pctx, ap); err == nil {
+				price = ds(pr)
+			}
+		}
+		lpv.(map[string]any)["lpPrice"] = price
+	}
 	for _, p := range a.LeveragelpKeeper.GetAllPositions(ctx) {
 		key := c.name(p.Address) + "/" + u(p.Id)
 		lpos[key] = map[string]any{"owner": c.name(p.Address), "id": u(p.Id), "pool": u(p.AmmPoolId),
 			"posAddr": c.name(p.GetPositionAddress().String()), "lp": is(p.LeveragedLpAmount),
 			"collateral": is(p.Collateral.Amount), "collDenom": p.Collateral.Denom, "liab": is(p.Liabilities),
-			"health": ds(p.PositionHealth), "stopLoss": ds(p.StopLossPrice)}
+			"health": ds(p.PositionHealth), "stopLoss": ds(p.StopLossPrice), "probeHealth": probeLevHealth(c, pctx, p)}
 	}
 	st["lev"] = map[string]any{"pools": lpools, "positions": lpos, "openCount": int64(a.LeveragelpKeeper.GetOpenPositionCount(ctx)),
 		"safetyFactor": ds(lp.SafetyFactor), "numberPerBlock": lp.NumberPerBlock}
@@ -228,7 +239,8 @@ func (c *Chain) Project(ctx sdk.Context) map[string]any {
 			"unpaid": is(m.BorrowInterestUnpaidLiability), "paidCustody": is(m.BorrowInterestPaidCustody),
 			"fundPaid": is(m.FundingFeePaidCustody), "fundRecv": is(m.FundingFeeReceivedCustody),
 			"tpCustody": is(m.TakeProfitCustody), "tpLiab": is(m.TakeProfitLiabilities),
-			"health": ds(m.MtpHealth), "stopLoss": ds(m.StopLossPrice), "takeProfit": ds(m.TakeProfitPrice), "openPrice": ds(m.OpenPrice)}
+			"health": ds(m.MtpHealth), "stopLoss": ds(m.StopLossPrice), "takeProfit": ds(m.TakeProfitPrice), "openPrice": ds(m.OpenPrice),
+			"probeHealth": probeMtpHealth(c, pctx, m)}
 	}
 	st["perp"] = map[string]any{"pools": ppools, "mtps": mtps, "openCount": int64(a.PerpetualKeeper.GetOpenMTPCount(ctx)),
 		"safetyFactor": ds(pp.SafetyFactor), "tpFlag": pp.EnableTakeProfitCustodyLiabilities}
@@ -324,6 +336,59 @@ func (c *Chain) Project(ctx sdk.Context) map[string]any {
 	}
 	st["ts"] = map[string]any{"spot": spot, "perp": perpo}
 	return st
+}
+
+func probeLpPrice(c *Chain, ctx sdk.Context, ap ammtypes.Pool) (d math.LegacyDec, err error) {
+	defer func() {
+		if r := recover(); r != nil {
+			err = fmt.Errorf("panic %v", r)
+		}
+	}()
+	return ap.LpTokenPrice(ctx, c.App.OracleKeeper, c.App.AccountedPoolKeeper)
+}
+
+func probeLevHealth(c *Chain, ctx sdk.Context, p leveragelptypes.Position) (out string) {
+	defer func() {
+		if r := recover(); r != nil {
+			out = "-1"
+		}
+	}()
+	cc, _ := ctx.CacheContext()
+	h, err := c.App.LeveragelpKeeper.GetPositionHealth(cc, p)
+	if err != nil {
+		return "-1"
+	}
+	return ds(h)
+}
+
+func probeMtpHealth(c *Chain, ctx sdk.Context, m perpetualtypes.MTP) (out string) {
+	defer func() {
+		if r := recover(); r != nil {
+			out = "-1"
+		}
+	}()
+	cc, _ := ctx.CacheContext()
+	ap, ok := c.App.AmmKeeper.GetPool(cc, m.AmmPoolId)
+	if !ok {
+		return "-1"
+	}
+	h, err := c.App.PerpetualKeeper.GetMTPHealth(cc, m, ap, "uusdc")
+	if err != nil {
+		return "-1"
+	}
+	return ds(h)
+}
+
+// smallWeight returns the pool weight reduced by the 2^30 guarantee factor of amm weights when it fits an int (0 otherwise).
+func smallWeight(w math.Int) int64 {
+	f := math.NewInt(1 << 30)
+	if w.Mod(f).IsZero() {
+		w = w.Quo(f)
+	}
+	if w.IsInt64() && w.Int64() < 1_000_000 {
+		return w.Int64()
+	}
+	return 0
 }
 
 func coinsListMap(cs []sdk.Coin) map[string]any {
